@@ -1,5 +1,7 @@
 import ActsModel.Gen.Emit
 import ActsModel.Gen.Fields
+import ActsModel.Gen.Image
+import ActsModel.Model.Image
 
 /-!
 # C11 — The store always holds a complete image of what the engine knows
@@ -25,5 +27,42 @@ theorem image_columns_survive :
     (∀ f ∈ recordFields .tasks, ∃ col, (sqlFromRow .tasks).lookup f = some col ∧ (sqlInsert .tasks).lookup col = some f) ∧
     (∀ f ∈ recordFields .procs, ∃ col, (sqlFromRow .procs).lookup f = some col ∧ (sqlInsert .procs).lookup col = some f) := by
   decide
+
+-- ------------------------------------------------------------------ the write-through discipline
+
+open Acts.Image
+
+theorem apply_synced {R : Type} (s : Sys R) (w : Write R) (h : Synced s) (hp : w.persisted = true) : Synced (s.apply w) := by
+  intro k
+  simp only [Sys.apply, hp, ↓reduceIte]
+  split
+  · rfl
+  · exact h k
+
+/-- **Write-through** (K3: every sequence of writes).  If every write site is followed by its row write, the store equals the
+live image between any two operations. -/
+theorem run_synced {R : Type} (s : Sys R) (ws : List (Write R)) (h : Synced s) (hp : ∀ w ∈ ws, w.persisted = true) : Synced (s.run ws) := by
+  induction ws generalizing s with
+  | nil => exact h
+  | cons w ws ih =>
+    exact ih (s.apply w) (apply_synced s w h (hp w (by simp))) (fun w' hw' => hp w' (by simp [hw']))
+
+/-- the hypothesis is needed: one site without its row write leaves the store behind (the shape of every C11 defect repaired) -/
+theorem unpersisted_write_lags :
+    let s : Sys Nat := { live := fun _ => 0, store := fun _ => 0 }
+    let s' := s.apply { key := "t", f := fun n => n + 1, persisted := false }
+    s'.live "t" = 1 ∧ s'.store "t" = 0 := by
+  simp [Sys.apply]
+
+/-- and a later persisted write of the same record repairs it (why such defects hide behind the next task event) -/
+theorem next_persisted_write_repairs {R : Type} (s : Sys R) (w : Write R) (hp : w.persisted = true) :
+    (s.apply w).store w.key = (s.apply w).live w.key := by
+  simp [Sys.apply, hp]
+
+/-- K1: every known site that changes a task or a process outside a task event is followed by its row write in the source
+(a removed or reordered `persist` turns an entry to `false` and this theorem stops checking) -/
+theorem every_site_persists : ∀ site ∈ Acts.Gen.persistSites, site.2 = true := by decide
+
+theorem sites_known : Acts.Gen.persistSites.length = 9 := by decide
 
 end Acts.C11
